@@ -5,8 +5,7 @@ from cfgdrive import Sim, c11_flags, options
 import drive_C10
 from drive_C10 import casevar, COMMA_ELEMS, LINE_ELEMS, STRINGS, FLOATS, SCALAR_POOL, LIST_POOL, PORT_GROUPS
 
-PRED_NAMES = ['portlist_bootstrap_irregular', 'portlist_conf_changed', 'conf_changed_multi_then_keyword',
-              'comma_default_unsplit', 'emptied_list_saved', 'failed_listop_marks_pending', 'edit_while_detached']
+PRED_NAMES = ['emptied_list_saved', 'edit_while_detached']
 TOR_LINES = [e for e in LINE_ELEMS if e[0] not in '"\'']
 TOR_STRINGS = [e for e in STRINGS if e[0] not in '"\'']
 PORT_LINES = ['9050', '9150 IsolateDestAddr', '127.0.0.1:9999', 'unix:/run/tor/socks', 'localhost:9052',
@@ -29,7 +28,7 @@ class P(drive_C10.P):
             'option is read; then 1-14 operations: CONF_CHANGED events with 1-4 lines carrying zero, one or many values '
             'per option, reads with names in random case, socks_endpoint(), local assignments / in-place edits and '
             'saves (accepted or rejected); after every event and save every option is read again. 70% of the cases '
-            'are steered clear of the open finding classes. '
+            'are steered clear of the open finding classes; port lists unset / auto / one / many lines, with defaults from config/defaults or __<X>. '
             'non-trivial = bootstrap succeeded and at least one event; distinct = distinct case')
     trusted = drive_C10.P.trusted + ["CONF_CHANGED / GETCONF / config/defaults wire formats as printed by harness/cfgworld.py"]
     assumptions = ['numeric and boolean options always carry exactly one value in Tor (also inside events)',
@@ -46,7 +45,7 @@ class P(drive_C10.P):
 
     def kind(self, case, obs):
         f = c11_flags(case)
-        tag = 'clean' if not any(f) else '+'.join('F%d' % (i + 1) for i, x in enumerate(f) if x)
+        tag = 'clean' if not any(f) else '+'.join(n for n, x in zip(('C10-F1', 'F5'), f) if x)
         return '%s/%s' % (tag, 'defaults' if case['defaults'] is not None else 'no-defaults')
 
     finding_preds = dict((n, (lambda i: (lambda c, o: c11_flags(c)[i]))(i)) for i, n in enumerate(PRED_NAMES))
@@ -92,7 +91,8 @@ class P(drive_C10.P):
             n = rng.choice([0, 1, 1, 2, 3]) if many_ok else rng.choice([0, 1])
             return rng.sample(TOR_LINES, n)
         if k == 'KPorts':
-            return [rng.choice([p for p in PORT_LINES if p != 'auto'])]
+            return rng.choice([[], ['auto'], [rng.choice(PORT_LINES)], [rng.choice(PORT_LINES)], [rng.choice(PORT_LINES)],
+                               rng.sample(PORT_LINES, 2), rng.sample(PORT_LINES, 3)])
         raise ValueError(k)
 
     def _store11(self, rng, table, benign):
@@ -109,10 +109,8 @@ class P(drive_C10.P):
                     vals = rng.sample(PORT_LINES, rng.choice([0, 1, 1, 2]))
             else:
                 vals = self._tor_values(rng, k)
-            if k == 'KPorts' and not benign and rng.random() < 0.6:
-                vals = rng.choice([[], ['auto'], rng.sample(PORT_LINES, 2)])
-                if rng.random() < 0.4:
-                    store['__' + cn] = [rng.choice(PORT_LINES)]
+            if k == 'KPorts' and rng.random() < 0.35:
+                store['__' + cn] = rng.sample(PORT_LINES, rng.choice([1, 1, 2]))
             if vals:
                 store[cn] = vals
             if defaults is not None and rng.random() < 0.45:
@@ -121,10 +119,7 @@ class P(drive_C10.P):
                     for e in rng.sample(src, rng.choice([1, 1, 2])):
                         defaults.append([cn, e])
                 elif k == 'KComma':
-                    if benign or rng.random() < 0.5:
-                        defaults.append([cn, rng.choice(COMMA_ELEMS)])
-                    else:
-                        defaults.append([cn, ','.join(rng.sample(COMMA_ELEMS, 2))])
+                    defaults.append([cn, rng.choice([',', ', ', ' , ']).join(rng.sample(COMMA_ELEMS, rng.choice([1, 2, 2, 3])))])
                 elif k == 'KStr':
                     defaults.append([cn, rng.choice(['dflt', '/etc/tor', 'Unnamed'])])
                 else:
@@ -133,14 +128,11 @@ class P(drive_C10.P):
 
     def _event(self, rng, opts, defaults=None):
         items = []
-        for cn, k in rng.sample(opts, min(len(opts), rng.choice([1, 1, 2, 3]))):
+        for cn, k in rng.sample(opts, min(len(opts), rng.choice([1, 1, 2, 3, 4]))):
             if cn == 'SocksPort' and k == 'KLine':
                 vals = rng.sample(PORT_LINES, rng.choice([0, 1, 1, 2, 3]))
             elif k == 'KPorts':
-                # (a keyword-only line for a port list that has several config/defaults lines makes
-                #  config[k] the very list object of _defaults: outside the by-value model, not generated)
-                many_defaults = sum(1 for n, _ in (defaults or []) if n == cn) >= 2
-                vals = rng.sample(PORT_LINES, rng.choice([1, 2] if many_defaults else [0, 1, 2]))
+                vals = rng.sample(PORT_LINES, rng.choice([0, 1, 1, 2, 3]))
             else:
                 vals = [v for v in self._tor_values(rng, k) if v]
             if not vals:
@@ -148,6 +140,14 @@ class P(drive_C10.P):
             else:
                 for v in vals:
                     items.append([cn, v])
+        if rng.random() < 0.35:
+            # a keyword-only line right after the last line of a key that carries several values
+            multi = [k for k in set(i[0] for i in items) if sum(1 for j in items if j[0] == k and j[1] is not None) >= 2]
+            kws = [i for i in items if i[1] is None]
+            if multi and kws:
+                k = rng.choice(sorted(multi))
+                kw = rng.choice(kws)
+                items = [i for i in items if i[0] != k and i is not kw] + [i for i in items if i[0] == k] + [kw]
         if rng.random() < 0.15 and len(items) > 2:
             # interleave: move one line somewhere else (keys keep Tor's spelling)
             x = items.pop(rng.randrange(len(items)))
@@ -192,11 +192,11 @@ class P(drive_C10.P):
             s2 = sim.clone()
             s2.step(op)
             if clean:
-                if any(c11_flags(dict(base, ops=ops + [op]))):
+                if any(s2.flags()):
                     continue
             else:
-                # the three classes of C10 that need no event are C10's business
-                if s2.f1 or s2.f2:
+                # the class of C10 that needs no event is C10's business
+                if s2.f1:
                     continue
             sim = s2
             ops.append(op)
@@ -206,12 +206,8 @@ class P(drive_C10.P):
         out = []
         for i in range(n):
             clean = rng.random() < 0.70
-            for _ in range(20):
-                table = self._table11(rng)
-                store, defaults = self._store11(rng, table, clean)
-                case = {'table': table, 'store': store, 'defaults': defaults, 'ops': []}
-                if not clean or not any(c11_flags(case)):
-                    break
+            table = self._table11(rng)
+            store, defaults = self._store11(rng, table, clean)
             ops = self._history11(rng, table, store, defaults, clean, rng.choice([1, 2, 3, 4, 6, 6, 9, 14]))
             out.append({'table': table, 'store': store, 'defaults': defaults, 'ops': ops})
         return out
@@ -253,7 +249,25 @@ class P(drive_C10.P):
                             ops += [['assign', name, self._valid(rng, k)], ['save', None], ['read', name]]
                         out.append({'table': [[name, t], ['NumCPUs', 'Integer']], 'store': dict([(name, init)] if init else [], NumCPUs=['2']),
                                     'defaults': defaults, 'ops': ops})
-        return out, 'every declared type x initial value shape x defaults mode x event shape, each followed by read-edit-save'
+        # port lists: every shape of Tor's value x config/defaults x __<X> x event shape
+        g = 'SocksPort'
+        ptable = [[g, 'Dependent'], [g + 'Lines', 'Virtual'], ['__' + g, 'Dependent'], ['NumCPUs', 'Integer']]
+        for init in ([], ['auto'], ['9050'], ['0', '127.0.0.1:9999 IsolateDestAddr'], ['auto', 'unix:/run/tor/socks']):
+            for dfl in (None, [], ['9150'], ['9150', '9151 IPv6Traffic']):
+                for dunder in ([], ['9250'], ['9250', '9251']):
+                    for ev in ([[g, None]], [[g, '8888']], [[g, '0'], [g, '8888 IsolateDestAddr']], [[g, 'auto']],
+                               [[g, '8887'], [g, '8888'], ['NumCPUs', '4']]):
+                        store = {'NumCPUs': ['2']}
+                        if init:
+                            store[g] = init
+                        if dunder:
+                            store['__' + g] = dunder
+                        ops = [['read', g.lower()], ['socks'], ['event', ev], ['read', g.upper()], ['socks'],
+                               ['listop', g, 'append', ['s', '7777']], ['needs_save'], ['save', None], ['read', g], ['socks']]
+                        out.append({'table': ptable, 'store': store, 'defaults': None if dfl is None else [[g, d] for d in dfl], 'ops': ops})
+        return out, ('every declared type x initial value shape x defaults mode x event shape, each followed by read-edit-save; '
+                     'port lists: Tor\'s value (unset / auto / one / many) x config/defaults (unsupported / none / one / two lines) '
+                     'x __<X> (none / one / two) x event shape, with socks_endpoint() and read-edit-save')
 
     def shrink_candidates(self, case):
         for c in drive_C10.P.shrink_candidates(self, case):
